@@ -68,6 +68,14 @@ pub async fn run_case(backend: &str, seed: u64, rep: &mut Report) -> anyhow::Res
     { let mut a = w.devices[0].lock().await; crate::upgrade::history(&mut a, seed, true).await?; }
     let before = { let mut a = w.devices[0].lock().await; snapshot(&mut a).await.map_err(|e| anyhow::anyhow!(e))? };
     let files_before = { let a = w.devices[0].lock().await; crate::upgrade::attachments(&a).await.map_err(|e| anyhow::anyhow!(e))? };
+    // a server list and / or preferences next to the account (all four combinations over the cases)
+    let (with_servers, with_prefs) = (seed % 2 == 1, seed % 4 < 2);
+    if with_prefs { crate::upgrade::add_extras(&{ let a = w.devices[0].lock().await; a.backend_target().await }, &w.account_id, seed, with_servers).await?; }
+    else if with_servers { use sos_core::RemoteOrigins; let t = { let a = w.devices[0].lock().await; a.backend_target().await }; let mut so = sos_backend::ServerOrigins::new(t, &w.account_id); so.add_server(sos_core::Origin::new("only-a-server".into(), "https://sync.example.com:5053/".parse().unwrap())).await.map_err(|e| anyhow::anyhow!(e.to_string()))?; }
+    rep.count(&format!("{backend}:extras:servers={with_servers}:preferences={with_prefs}"));
+    let extras_before = { let a = w.devices[0].lock().await; let t = a.backend_target().await; crate::upgrade::extras(&a, &t, &w.account_id).await };
+    let status_before = { use sos_sync::SyncStorage; let a = w.devices[0].lock().await; a.sync_status().await.map_err(|e| anyhow::anyhow!(e.to_string()))? };
+    let devices_before = { let a = w.devices[0].lock().await; a.trusted_devices().await.map(|d| d.len()).unwrap_or(0) };
     rep.count(&format!("{backend}:attachments:{}", files_before.len()));
     let src_target = { let a = w.devices[0].lock().await; a.backend_target().await };
     let zip = w.tmp.path().join("backup.zip");
@@ -91,6 +99,35 @@ pub async fn run_case(backend: &str, seed: u64, rep: &mut Report) -> anyhow::Res
                         if after != before {
                             let what = if after.keys().ne(before.keys()) { "folders" } else { "contents" };
                             rep.spec_fail(&format!("c18-restored-account-differs-{what}-{backend}"), json!({"case_seed": seed, "backend": backend, "before": before.len(), "after": after.len()}), "the account restored from its own backup archive serves different folders / secrets");
+                        }
+                        // the event logs: a sqlite archive carries the tables, so every log must come back with the same
+                        // commit state (a file-system archive carries vaults, its folder logs are rebuilt: only counted there)
+                        {
+                            use sos_sync::SyncStorage;
+                            match r.sync_status().await {
+                                Ok(st) => {
+                                    let mut differ = vec![];
+                                    if st.identity != status_before.identity { differ.push("identity"); }
+                                    if st.account != status_before.account { differ.push("account"); }
+                                    if st.device != status_before.device { differ.push("device"); }
+                                    if st.files != status_before.files { differ.push("files"); }
+                                    if st.folders != status_before.folders { differ.push("folders"); }
+                                    rep.count(&format!("{backend}:restored-status:{}", if differ.is_empty() { "same".to_string() } else { differ.join("+") }));
+                                    if backend == "db" && !differ.is_empty() {
+                                        rep.spec_fail(&format!("c18-restored-account-differs-event-logs-{}-{backend}", differ.join("+")), json!({"case_seed": seed, "backend": backend, "logs": differ}), "the account restored from its own sqlite archive has other commit states (other event logs) than the exported account");
+                                    }
+                                }
+                                Err(e) => rep.spec_fail(&format!("c18-restored-account-status-unreadable-{backend}"), json!({"case_seed": seed}), &e.to_string()),
+                            }
+                            let devices_after = r.trusted_devices().await.map(|d| d.len()).unwrap_or(0);
+                            if devices_after != devices_before { rep.spec_fail(&format!("c18-restored-account-differs-trusted-devices-{backend}"), json!({"case_seed": seed, "before": devices_before, "after": devices_after}), "the restored account trusts another number of devices"); }
+                        }
+                        // server list and account preferences
+                        match (&extras_before, crate::upgrade::extras(&r, &r.backend_target().await, &w.account_id).await) {
+                            (Ok(b), Ok(af)) => { if b.1 != af.1 { rep.spec_fail(&format!("c18-restored-account-differs-servers-{backend}"), json!({"case_seed": seed, "before": b.1, "after": af.1}), "the restored account has another server list"); }
+                                if b.2 != af.2 { rep.spec_fail(&format!("c18-restored-account-differs-preferences-{backend}"), json!({"case_seed": seed, "before": b.2, "after": af.2}), "the restored account has other preferences"); } }
+                            (Err(e), _) => rep.spec_fail("c18-harness-extras-error-before", json!({"case_seed": seed}), e),
+                            (_, Err(e)) => rep.spec_fail(&format!("c18-restored-account-extras-unreadable-{backend}"), json!({"case_seed": seed}), &e),
                         }
                         match crate::upgrade::attachments(&r).await {
                             Ok(files_after) => if files_after != files_before {
@@ -293,6 +330,7 @@ pub fn run(cli: &Cli) {
         let file = info.location().map(|l| l.file().to_string()).unwrap_or_default();
         let parts: Vec<&str> = file.split('/').collect();
         let tail = parts[parts.len().saturating_sub(4)..].join("/");
+        if std::env::var("ADEBUG").is_ok() { eprintln!("panic: {info}"); }
         *PANIC_SITE.lock().unwrap() = (tail, info.to_string().chars().take(300).collect());
     }));
     let property = cli.extra.get("property").cloned().unwrap_or("C18".into());
